@@ -130,26 +130,29 @@ static void mc_cases(rng& g, bool thorough)
                         if (!thorough && g.below(2)) continue;
                         int ff = f == 2 ? f_ind : f;
                         T jac = T(jacs[g.below(3)]);
-                        std::size_t Ms = (std::size_t) (w1 + w2) * 2;
+                        std::size_t Ms = 24; // the same size as the lattice of the point: the order of the two numbers of a call is not prescribed
                         T v = mc_lattice<T>(std::vector<int>{k1, k2}, std::vector<T>{T(w1), T(w2)}, T(), ff, jac, 24, Ms);
                         ev("McLat").s("T", type_name<T>::get()).a("ks", std::vector<int>{k1, k2}).a("w", std::vector<int>{w1, w2}).i("f", ff).i("Mu", 24)
-                            .i("Ms", (long long) Ms).i("exactWeights", 1).i("value", std::isfinite(v) ? mono_scaled(v, 20) : -999999999).emit();
+                            .i("Ms", (long long) Ms).i("exactWeights", 1).i("recompute", g.below(12) == 0 ? 1 : 0).i("value", std::isfinite(v) ? mono_scaled(v, 20) : -999999999).emit();
                     }
                 }
-    // three channels, weights with a minimum weight that clamps, unnormalised input: the weights actually used are whatever the
-    // library made of them - the integral must be right for *any* admissible weights (fine selector lattice, tolerance n / Ms)
-    for (int k = 0; k != (thorough ? 60 : 12); ++k)
+    // three channels, unnormalised weights and a minimum weight that clamps: the weights actually used are whatever the library
+    // made of them; they are multiples of 1/11, 1/4, 1/21, so a symmetric lattice of M = lcm(24, denominator) points per number
+    // has no selector point on a cumulative boundary and the integral must be right to rounding
+    struct fam { double w[3]; double minw; std::size_t M; };
+    static fam const fams[3] = {{{0.9, 0.05, 0.05}, 0.1, 264}, {{2, 1, 1}, 0.0, 24}, {{0.95, 0.05, 0.0}, 0.1, 168}};
+    for (int k = 0; k != (thorough ? 18 : 6); ++k)
     {
+        fam const& fm = fams[k % 3];
         std::vector<int> ks{1 + (int) g.below(3), 1 + (int) g.below(3), 1 + (int) g.below(3)};
-        std::vector<T> w{T(0.95), T(0.05), T(g.below(3) == 0 ? 0.0 : 0.3)};
-        T minw = g.below(2) ? T(0.1) : T();
+        std::vector<T> w{T(fm.w[0]), T(fm.w[1]), T(fm.w[2])};
         for (int f = 0; f != 3; ++f)
         {
             int ff = f == 2 ? f_ind : f;
             std::vector<T> used;
-            T v = mc_lattice<T>(ks, w, minw, ff, T(1), 24, 2048, &used);
-            ev("McLat").s("T", type_name<T>::get()).a("ks", ks).a("w", std::vector<int>{0, 0, 0}).i("f", ff).i("Mu", 24).i("Ms", 2048).i("exactWeights", 0)
-                .i("value", std::isfinite(v) ? mono_scaled(v, 20) : -999999999).emit();
+            T v = mc_lattice<T>(ks, w, T(fm.minw), ff, T(1), fm.M, fm.M, &used);
+            ev("McLat").s("T", type_name<T>::get()).a("ks", ks).a("w", std::vector<int>{0, 0, 0}).i("f", ff).i("Mu", (long long) fm.M).i("Ms", (long long) fm.M)
+                .i("exactWeights", 0).i("recompute", 0).i("value", std::isfinite(v) ? mono_scaled(v, 20) : -999999999).emit();
         }
     }
 }
